@@ -156,6 +156,11 @@ def get_classes():
         ok = orig_send(self, node, message)
         w = CTX.world
         if w is not None:
+            if isinstance(message, dict) and message.get('serialized') is not None:
+                # (for the scheduler's adversary) which node is being sent a snapshot right now
+                for h in w.hosts:
+                    if h.addr is not None and h.addr == getattr(node, 'id', None):
+                        w.snap_sent = (h.idx, w.evno)
             if w.tap is not None:
                 w.tap.on_send(w.cur, node, message, ok)
             if w.verbose_from is not None and w.evno >= w.verbose_from:
